@@ -281,7 +281,8 @@ void kerl_set_history_file(const char *path)
   FILE *file = fopen(path, "r");
   if (file) {
     while (NULL != (fgets(buf, 1024, file))) {
-      buf[strlen(buf)-1] = 0; // get rid of \n
+      size_t len = strlen(buf);
+      if (len > 0 && buf[len-1] == '\n') buf[len-1] = 0; // get rid of \n (a line may lack it, or - starting with a NUL byte - be empty)
       // unescape
       unescape(buf, 1);
       add_history(buf);
